@@ -16,6 +16,10 @@ import Y0.Lemmas.CtfScm
 import Y0.Lemmas.CtfComponents
 import Y0.Lemmas.CtfSimplify
 import Y0.Lemmas.CtfFactor
+import Y0.Lemmas.CtfAncSpec
+import Y0.Lemmas.CtfDenValue
+import Y0.Lemmas.CtfCond
+import Y0.Lemmas.CtfSimplifyRefl
 
 namespace Y0.Ctf
 open Relation Y0.MG
@@ -194,89 +198,22 @@ theorem minimize_same_rv (g : MG Name) (v w : Var) (h : minimize g v = .ok w)
 /-- the element of `An(Y_x)` built for the graph ancestor `a` -/
 theorem ancestorVar_eq (gin : MG Name) (v : Var) (a : Name) (w : Var) (h : ancestorVar gin v a = .ok w) :
     ∃ Aa, gin.ancestorsInclusive [a] = .ok Aa ∧
-      w = { name := a, ivs := v.ivs.filter (fun i => decide (i.name ∈ Aa)) } := by
-  unfold ancestorVar at h
-  simp only [bind, Except.bind] at h
-  cases hA : gin.ancestorsInclusive [a] with
-  | error e => rw [hA] at h; cases h
-  | ok Aa =>
-    rw [hA] at h
-    refine ⟨Aa, rfl, ?_⟩
-    simp only [pure, Except.pure, Except.ok.injEq] at h
-    rw [← h]
-    split
-    · rename_i hemp
-      simp only [List.isEmpty_iff] at hemp
-      rw [hemp]; rfl
-    · rfl
+      w = { name := a, ivs := v.ivs.filter (fun i => decide (i.name ∈ Aa)) } :=
+  ancestorVar_eq' gin v a w h
 
 /-- **Def. 2.1, soundness and completeness.**  For a counterfactual variable `Y_x` the model returns exactly the
 variables `W_z` with `W ∈ An(Y)_{G_{\underline X}}` and `z = x ∩ An(W)_{G_{\overline X}}` (completeness up to `==` of
 the Python objects, i.e. up to the order in which a frozenset of interventions is listed). -/
 theorem ctf_ancestors_spec (g : MG Name) (hg : g.WF) (v : Var) (hcf : v.isCf = true) (A : List Var)
     (h : ctfAncestors g v = .ok A) :
-    (∀ w ∈ A, IsCtfAncestor g v w) ∧ (∀ w, IsCtfAncestor g v w → ∃ w' ∈ A, SameVar w' w) := by
-  unfold ctfAncestors at h
-  simp only [hcf, Bool.not_true, Bool.false_eq_true, ↓reduceIte, bind, Except.bind] at h
-  cases hU : (g.removeOutEdges (ivNames v)).ancestorsInclusive [v.name] with
-  | error e => rw [hU] at h; cases h
-  | ok U =>
-    rw [hU] at h
-    have hmem := mapM_ok_mem _ _ _ h
-    have hchar : ∀ w, w ∈ A → IsCtfAncestor g v w := by
-      intro w hw
-      obtain ⟨a, haU, haw⟩ := (hmem w).1 hw
-      obtain ⟨Aa, hAa, rfl⟩ := ancestorVar_eq _ _ _ _ haw
-      refine ⟨?_, rfl, rfl, fun i => ?_⟩
-      · exact (ancUnder_congr g _ _ (mem_ivNames v) _ _).1 ((mem_anc_removeOut g _ _ _ hU a).1 haU)
-      · simp only [List.mem_filter, decide_eq_true_eq]
-        rw [mem_anc_removeIn g _ _ _ hAa, ancBar_congr g (ivNames v) (subNames v) (mem_ivNames v)]
-    refine ⟨hchar, fun w hw => ?_⟩
-    have haU : w.name ∈ U :=
-      (mem_anc_removeOut g _ _ _ hU w.name).2 ((ancUnder_congr g _ _ (mem_ivNames v) _ _).2 hw.1)
-    -- the model's element for the ancestor `w.name`
-    have hnode : w.name ∈ (g.removeInEdges (ivNames v)).nodes := by
-      have hyn : v.name ∈ (g.removeOutEdges (ivNames v)).nodes := by
-        by_contra hn
-        have := ancestorsInclusive_error (g.removeOutEdges (ivNames v)) [v.name]
-          (by intro hall; exact hn (hall _ (by simp)))
-        rw [this] at hU; cases hU
-      have hy : v.name ∈ g.nodes := (mem_nodes_removeOutEdges g hg _ _).1 hyn
-      exact (mem_nodes_removeInEdges g hg _ _).2
-        (ancUnder_mem_nodes g hg _ _ _ hy hw.1)
-    obtain ⟨Aa, hAa⟩ := ancestorsInclusive_total (g.removeInEdges (ivNames v)) [w.name]
-      (by intro s hs; simp only [List.mem_singleton] at hs; subst hs; exact hnode)
-    have hok : ancestorVar (g.removeInEdges (ivNames v)) v w.name =
-        .ok { name := w.name, ivs := v.ivs.filter (fun i => decide (i.name ∈ Aa)) } := by
-      unfold ancestorVar
-      simp only [bind, Except.bind, hAa, pure, Except.pure]
-      split
-      · rename_i hemp
-        simp only [List.isEmpty_iff] at hemp
-        rw [hemp]; rfl
-      · rfl
-    refine ⟨_, (hmem _).2 ⟨w.name, haU, hok⟩, rfl, hw.2.1.symm, hw.2.2.1.symm, fun i => ?_⟩
-    rw [hw.2.2.2 i]
-    simp only [List.mem_filter, decide_eq_true_eq]
-    rw [mem_anc_removeIn g _ _ _ hAa, ancBar_congr g (ivNames v) (subNames v) (mem_ivNames v)]
+    (∀ w ∈ A, IsCtfAncestor g v w) ∧ (∀ w, IsCtfAncestor g v w → ∃ w' ∈ A, SameVar w' w) :=
+  ctf_ancestors_spec' g hg v hcf A h
 
 /-- a variable without subscripts: its counterfactual ancestors are its graph ancestors, as plain variables -/
 theorem ctf_ancestors_plain (g : MG Name) (hg : g.WF) (y : Name) (A : List Var)
     (h : ctfAncestors g (Var.plain y) = .ok A) (w : Var) :
-    w ∈ A ↔ ∃ a, g.Anc [y] a ∧ w = Var.plain a := by
-  unfold ctfAncestors at h
-  simp only [Var.plain, Var.isCf, List.isEmpty_nil, Bool.not_true, Bool.not_false, ↓reduceIte,
-    Bool.false_eq_true, Option.isSome_none, bind, Except.bind] at h
-  cases hU : g.ancestorsInclusive [y] with
-  | error e => rw [hU] at h; cases h
-  | ok U =>
-    rw [hU] at h
-    simp only [pure, Except.pure, Except.ok.injEq] at h
-    subst h
-    simp only [List.mem_map, ancestorsInclusive_spec g hg _ _ hU, Var.plain]
-    constructor
-    · rintro ⟨a, ha, rfl⟩; exact ⟨a, ha, rfl⟩
-    · rintro ⟨a, ha, rfl⟩; exact ⟨a, ha, rfl⟩
+    w ∈ A ↔ ∃ a, g.Anc [y] a ∧ w = Var.plain a :=
+  ctf_ancestors_plain' g hg y A h w
 
 /-- **totality.**  `get_ancestors_of_counterfactual` succeeds on every counterfactual variable whose name is a node. -/
 theorem ctf_ancestors_total (g : MG Name) (hg : g.WF) (v : Var) (hcf : v.isCf = true) (hv : v.name ∈ g.nodes) :
@@ -369,30 +306,8 @@ with their values, a parent that was not intervened on enters as `-P`. -/
 theorem convertOne_spec (g : MG Name) (v w : Var) (h : convertOne g v = .ok w) :
     w.name = v.name ∧ w.star = none ∧ w.isIv = false ∧ ExactFactorForm g w ∧
     (∀ i, i ∈ w.ivs ↔ g.DiEdge i.name v.name ∧
-      (i ∈ v.ivs ∨ (i.star = false ∧ ∀ j ∈ v.ivs, j.name ≠ i.name))) := by
-  unfold convertOne at h
-  by_cases hv : v.name ∈ g.nodes
-  swap
-  · simp only [predecessors, hv, ↓reduceIte, bind, Except.bind] at h; cases h
-  simp only [predecessors, hv, ↓reduceIte, bind, Except.bind, pure, Except.pure, Except.ok.injEq] at h
-  have hw : w = { name := v.name, ivs := convertIvs (g.parents v.name) v } := by
-    rw [← h]
-    split
-    · rename_i hemp
-      simp only [List.isEmpty_iff] at hemp
-      rw [hemp]; rfl
-    · rfl
-  subst hw
-  have hmem := mem_convertIvs g v
-  refine ⟨rfl, rfl, rfl, fun p => ?_, hmem⟩
-  simp only [subNames, List.mem_map]
-  constructor
-  · rintro ⟨i, hi, rfl⟩; exact ((hmem i).1 hi).1
-  · intro hp
-    by_cases hex : ∃ j ∈ v.ivs, j.name = p
-    · obtain ⟨j, hj, rfl⟩ := hex
-      exact ⟨j, (hmem j).2 ⟨hp, Or.inl hj⟩, rfl⟩
-    · exact ⟨⟨p, false⟩, (hmem _).2 ⟨hp, Or.inr ⟨rfl, fun j hj hjp => hex ⟨j, hj, hjp⟩⟩⟩, rfl⟩
+      (i ∈ v.ivs ∨ (i.star = false ∧ ∀ j ∈ v.ivs, j.name ≠ i.name))) :=
+  convertOne_spec' g v w h
 
 /-- the result of the conversion passes y0's own test (on a graph without self-loops) -/
 theorem convertOne_factorForm (g : MG Name) (v w : Var) (hloop : ¬ g.DiEdge v.name v.name)
@@ -429,34 +344,8 @@ theorem convert_same_value (g : MG Name) (v c : Var) (h : convertOne g v = .ok c
 
 /-- the accumulated ancestral set `D_* = An(Y_*)` -/
 theorem ancFold_mem (g : MG Name) (q : Event) (acc anc : List Var) (h : q.foldlM (ancStep g) acc = .ok anc)
-    (w : Var) : w ∈ anc ↔ w ∈ acc ∨ ∃ p ∈ q, ∃ A, ctfAncestors g p.1 = .ok A ∧ w ∈ A := by
-  induction q generalizing acc with
-  | nil =>
-    simp only [List.foldlM_nil, pure, Except.pure, Except.ok.injEq] at h
-    subst h; simp
-  | cons p q ih =>
-    simp only [List.foldlM_cons, bind, Except.bind] at h
-    cases hA : ctfAncestors g p.1 with
-    | error e => simp only [ancStep, bind, Except.bind, hA] at h; cases h
-    | ok A =>
-      simp only [ancStep, bind, Except.bind, hA, pure, Except.pure] at h
-      rw [ih _ h]
-      simp only [unionVars, List.mem_append, List.mem_filter, Bool.not_eq_eq_eq_not, Bool.not_true, List.mem_cons,
-        exists_eq_or_imp]
-      constructor
-      · rintro ((hw | ⟨hw, _⟩) | ⟨p', hp', A', hA', hw⟩)
-        · exact Or.inl hw
-        · exact Or.inr (Or.inl ⟨A, hA, hw⟩)
-        · exact Or.inr (Or.inr ⟨p', hp', A', hA', hw⟩)
-      · rintro (hw | ⟨A', hA', hw⟩ | ⟨p', hp', A', hA', hw⟩)
-        · exact Or.inl (Or.inl hw)
-        · rw [hA] at hA'
-          simp only [Except.ok.injEq] at hA'
-          subst hA'
-          by_cases hacc : w ∈ acc
-          · exact Or.inl (Or.inl hacc)
-          · exact Or.inl (Or.inr ⟨hw, by simpa [mem'] using hacc⟩)
-        · exact Or.inr ⟨p', hp', A', hA', hw⟩
+    (w : Var) : w ∈ anc ↔ w ∈ acc ∨ ∃ p ∈ q, ∃ A, ctfAncestors g p.1 = .ok A ∧ w ∈ A :=
+  ancFold_mem' g q acc anc h w
 
 /-- **shape of the factorisation (Eq. 11-15).**  `do_counterfactual_factor_factorization` returns
 `Σ_{V(D_*) ∖ V(Y_*)} Π_j P(c_j)` where `D_* = An(Y_*)` is the union of the counterfactual ancestors (Def. 2.1) of the
@@ -556,19 +445,55 @@ theorem factorisation_shape (g : MG Name) (q : Event) (e : Expr) (ev : Event)
 /-! ### value of the factorisation
 
 -- OPEN: factorisation_den : factorize g q = .ok (e, ev) → Compatible M g → ν.Distinct →
---         (value of  e  under the reading "a -N subscript bound by the enclosing Sum denotes the bound value, every other
---          subscript its literal value; a factor variable takes the bound value of its vertex or the value `ev` gives it")
---         = probEventOpt M ν q
+--         factorisedValue M ν card e ev = probEventOpt M ν q                (ALL queries)
 -- This is FALSE for the model (hence for the code): the returned expression identifies counterfactual variables by
 -- their graph vertex and has only two value symbols per vertex, so it cannot express
---   * a query that needs one vertex in two worlds  (P(Y = y, Y_x = y') -> both ancestors become `Y @ -X`),
---   * a literal subscript `x` when X is also summed out (captured by the summation index),
---   * an added parent subscript `-P` when P is an outcome with value `+P` or `None`.
--- These are the open findings `factorisation-value:{multi-world, literal-bound, outcome-parent-value}`; on all sampled
--- queries outside these three syntactic classes the exact functional-SCM oracle found the value equal to P(query).
--- What is proved: the shape (`factorisation_shape`), i.e. that D_*, the ctf-factor forms and the grouping by
--- c-components are those of Eq. 11-15.  The counterfactual (split) lemma needed for the value (ctf-factors over different
--- districts depend on disjoint noise) is not mechanised. -/
+--   * a query that needs one vertex in two worlds  (P(Y = y, Y_x = y') -> both ancestors become `Y @ -X`)   `multiWorld`,
+--   * an unstarred literal subscript `x` when X is also summed out (captured by the summation index)       `literalBound`,
+--   * an ADDED parent subscript `-P` when P is an outcome with value `+P` or `None`                  `outcomeParentValue`.
+-- These are the open findings `factorisation-value:{multi-world, literal-bound, outcome-parent-value}`.
+-- What is proved (`factorisation_den_partial`): the statement for EVERY query outside these three decidable classes
+-- (`factorizeClasses g q = (false, false, false)`; the harness cross-checks the Lean predicates against the Python key
+-- functions on every run) that has a reading at all (`readableQuery`: no self-intervened variable — the open SIMPLIFY
+-- findings — and no variable with two values for one subscript name), every compatible functional SCM whose pmfs sum
+-- to one and whose variables take their values below `card`, and EVERY reading `ν` of the value symbols (distinct or
+-- not).  The ingredients are mechanised, none is assumed: composition + exclusion restriction along the evaluation
+-- order (`ancestral_iff_factor`), independence of the exogenous blocks of different c-components (`wsum_split_list`,
+-- the counterfactual (split) lemma), marginalisation over the non-outcome ancestors (`wsum_marginals`). -/
+
+/-- **the factorised sum-product equals the probability of the query** (Eq. 11-15), for every query outside the three
+syntactic classes `multiWorld` / `literalBound` / `outcomeParentValue`:
+
+`Σ_{d_* ∖ y_*} Π_j P(c_j)`, read as in Y0/Spec/CtfSem.lean (`factorisedValue`), is `P(⋀ Y_x = y)` in every functional
+SCM compatible with the graph, for every reading of the value symbols. -/
+theorem factorisation_den_partial (g : MG Name) (hg : g.WF) (q : Event) (e : Expr) (ev : Event)
+    (h : factorize g q = .ok (e, ev))
+    (hread : readableQuery q = true)
+    (hclass : factorizeClasses g q = .ok (false, false, false))
+    (M : Fscm.Model) (hM : Fscm.Compatible M g) (hnorm : ∀ pmf ∈ M.noise, pmf.sum = 1)
+    (card : Name → Nat) (hcard : ∀ v pa lat, M.f v pa lat < card v) (ν : Fscm.BaseValues) :
+    factorisedValue M ν card e ev = probEventOpt M ν q :=
+  factorisation_value g hg q e ev h hread hclass M hM hnorm card hcard ν
+
+/-- what the three class flags say, relationally (`D` is the accumulated `An(Y_*)`):
+ * not multi-world: the members of `D` are determined by their vertex;
+ * not literal-bound: an unstarred subscript of the query that names a vertex of `D` names an outcome;
+ * not outcome-parent-value: a parent `P` of a member that the member does not intervene on, if it is an outcome,
+   has the value `-P` in every item of the query. -/
+theorem factorizeClasses_false (g : MG Name) (q : Event) (h : factorizeClasses g q = .ok (false, false, false)) :
+    ∃ D, ancestralSet g q = .ok D ∧
+      (∀ a ∈ D, ∀ b ∈ D, a.name = b.name → a = b) ∧
+      (∀ p ∈ q, ∀ i ∈ p.1.ivs, i.star = false → i.name ∈ D.map (·.name) → i.name ∈ q.map (·.1.name)) ∧
+      (∀ w ∈ D, ∀ p, g.DiEdge p w.name → p ∉ subNames w → p ∈ D.map (·.name) →
+        ∀ it ∈ q, it.1.name = p → it.2 = some ⟨p, false⟩) := by
+  unfold factorizeClasses at h
+  simp only [bind, Except.bind] at h
+  cases hD : ancestralSet g q with
+  | error e => rw [hD] at h; cases h
+  | ok D =>
+    rw [hD] at h
+    simp only [pure, Except.pure, Except.ok.injEq, Prod.mk.injEq] at h
+    exact ⟨D, rfl, multiWorld_false D h.1, literalBound_false q D h.2.1, outcomeParentValue_false g q D h.2.2⟩
 
 /-! ## 4. ancestral components (Def. 4.2) -/
 
@@ -676,6 +601,165 @@ theorem ancestralSetAfter_eq (g : MG Name) (cond : List Var) (root : Var) (A : L
         · rintro ⟨m, hmm, ⟨A₁, hA₁, hmA⟩, rfl⟩
           cases hA₁
           exact ⟨m, ⟨hmm, hmA⟩, rfl⟩
+
+/-! ### Def. 4.2 in full: the two passes separately, the conditioned variables, and the whole of `get_ancestral_components` -/
+
+/-- **first merge pass** (`_merge_frozen_sets_with_common_vertices`): the finest partition of the non-empty input sets
+closed under "share a graph vertex"; the output sets are pairwise disjoint on graph vertices (the invariant under which
+the second pass runs). -/
+theorem merge_common_spec (sets : List (List Var)) :
+    (∀ C ∈ mergeCommon sets, ∃ s ∈ sets, s ≠ [] ∧ ∀ x, x ∈ C ↔ ∃ t ∈ sets, OverlapClass sets s t ∧ x ∈ t) ∧
+    (∀ s ∈ sets, ∀ x ∈ s, ∃ C ∈ mergeCommon sets, x ∈ C) ∧
+    (∀ C ∈ mergeCommon sets, ∀ C' ∈ mergeCommon sets, ∀ a ∈ C, ∀ b ∈ C', a.name = b.name → C = C') := by
+  refine ⟨fun C hC => ?_, fun s hs x hx => ?_, fun C hC C' hC' a ha b hb hab =>
+    mergeCommon_base_disjoint sets C C' hC hC' a b ha hb hab⟩
+  · obtain ⟨s, hsn, hs, hchar⟩ := mergeBy_class sets shareBase C hC
+    have hne : s ≠ [] := by
+      obtain ⟨_, t, _, hR | hR⟩ := (mem_nodes_linkGraph sets shareBase s).1 hsn
+      · obtain ⟨a, ha, _⟩ := (shareBase_iff s t).1 hR
+        intro h0; rw [h0] at ha; cases ha
+      · obtain ⟨_, _, b, hb, _⟩ := (shareBase_iff t s).1 hR
+        intro h0; rw [h0] at hb; cases hb
+    refine ⟨s, hs, hne, fun x => ?_⟩
+    rw [hchar x]
+    constructor
+    · rintro ⟨t, hconn, hx⟩
+      exact ⟨t, ((mem_nodes_linkGraph _ _ _).1 (conn_mem_nodes sets shareBase s t hsn hconn)).1,
+        (conn_common_iff sets s t).1 hconn, hx⟩
+    · rintro ⟨t, _, hcl, hx⟩
+      exact ⟨t, (conn_common_iff sets s t).2 hcl, hx⟩
+  · obtain ⟨C, hC, hchar⟩ := mergeBy_of_node sets shareBase s (mem_nodes_common sets s hs x hx)
+    exact ⟨C, hC, (hchar x).2 ⟨s, .refl, hx⟩⟩
+
+/-- **second merge pass** (`_merge_frozen_sets_linked_by_bidirectional_edges`, after `fix:` F8b): the finest partition
+of the input sets closed under "a bidirected edge of `G` joins a vertex of one to a vertex of the other" — an edge with
+an endpoint outside every input set links nothing. -/
+theorem merge_bidirected_spec (g : MG Name) (sets : List (List Var)) :
+    (∀ C ∈ mergeBidirected g sets, ∃ s ∈ sets, ∀ x, x ∈ C ↔ ∃ t ∈ sets, BiClass g sets s t ∧ x ∈ t) ∧
+    (∀ s ∈ sets, ∃ C ∈ mergeBidirected g sets, ∀ x ∈ s, x ∈ C) := by
+  refine ⟨fun C hC => ?_, fun s hs => ?_⟩
+  · obtain ⟨s, hsn, hs, hchar⟩ := mergeBy_class sets (biLinked g) C hC
+    refine ⟨s, hs, fun x => ?_⟩
+    rw [hchar x]
+    constructor
+    · rintro ⟨t, hconn, hx⟩
+      exact ⟨t, ((mem_nodes_linkGraph _ _ _).1 (conn_mem_nodes sets (biLinked g) s t hsn hconn)).1,
+        (conn_bi_iff g sets s t).1 hconn, hx⟩
+    · rintro ⟨t, _, hcl, hx⟩
+      exact ⟨t, (conn_bi_iff g sets s t).2 hcl, hx⟩
+  · obtain ⟨C, hC, hchar⟩ := mergeBy_of_node sets (biLinked g) s (mem_nodes_bidirected g sets s hs)
+    exact ⟨C, hC, fun x hx => (hchar x).2 ⟨s, .refl, hx⟩⟩
+
+/-- what `minimize_counterfactual` returns is `‖x‖` for every kind of variable -/
+theorem minimisedTo_of_minimize (g : MG Name) (x m : Var) (h : minimize g x = .ok m) : MinimisedTo g x m := by
+  by_cases hcf : x.isCf = true
+  · right
+    refine ⟨?_, minimize_spec g x m hcf h⟩
+    simpa [Var.isCf] using hcf
+  · left
+    have hcf' : x.isCf = false := by simpa using hcf
+    refine ⟨by simpa [Var.isCf] using hcf', (minimize_wf g x m h).2.2.2.2 hcf'⟩
+
+/-- **`X_*(W_t) = V(‖X_*‖ ∩ An(W_t))`** (`_get_conditioned_variables_in_ancestral_set`).
+Soundness: every returned vertex is the vertex of a minimised conditioned variable that is a member of `An(W_t)`
+(Def. 2.1).  Completeness: the vertex of every minimised conditioned variable that equals (`==`) a member of `An(W_t)` is
+returned — for subscript lists in the canonical `Iv.lt` order of the line protocol, in which `==` of two Python frozensets
+is structural equality of the model. -/
+theorem cond_in_ancestral_set_spec (g : MG Name) (hg : g.WF) (cond : List Var) (root : Var) (c : List Name)
+    (h : condInAncestralSet g cond root = .ok c) :
+    (∀ n ∈ c, CondVertex g cond root n) ∧
+    (∀ x ∈ cond, ∀ m, minimize g x = .ok m → (∃ w, IsCtfAncestor g root w ∧ SameVar m w) →
+      x.ivs.Pairwise (fun a b => Iv.lt a b = true) → root.ivs.Pairwise (fun a b => Iv.lt a b = true) →
+      m.name ∈ c) := by
+  unfold condInAncestralSet minimizeSet at h
+  simp only [bind, Except.bind] at h
+  cases hm : cond.mapM (minimize g) with
+  | error e => rw [hm] at h; cases h
+  | ok ms =>
+    rw [hm] at h
+    simp only [pure, Except.pure] at h
+    cases ha : ctfAncestors g root with
+    | error e => rw [ha] at h; cases h
+    | ok A₀ =>
+      rw [ha] at h
+      simp only [Except.ok.injEq] at h
+      subst h
+      obtain ⟨hsound, hcomplete⟩ := ctfAncestors_all g hg root A₀ ha
+      have hms := mapM_ok_mem _ _ _ hm
+      constructor
+      · intro n hn
+        simp only [mem_dedup', List.mem_map, List.mem_filter, mem'_iff] at hn
+        obtain ⟨m, ⟨hmm, hmA⟩, rfl⟩ := hn
+        obtain ⟨x, hx, hxm⟩ := (hms m).1 hmm
+        exact ⟨x, hx, m, minimisedTo_of_minimize g x m hxm, ⟨m, (hsound m hmA).1, rfl, rfl, rfl, fun _ => Iff.rfl⟩, rfl⟩
+      · intro x hx m hxm ⟨w, hw, hsame⟩ hsx hsr
+        simp only [mem_dedup', List.mem_map, List.mem_filter, mem'_iff]
+        refine ⟨m, ⟨(hms m).2 ⟨x, hx, hxm⟩, ?_⟩, rfl⟩
+        obtain ⟨w', hw', hsame'⟩ := hcomplete w hw
+        -- `m` and `w'` have the same members, and both subscript lists are sorted sublists
+        have hmw : m = w' := by
+          obtain ⟨P, hP⟩ := (hsound w' hw').2
+          have hsw : w'.ivs.Pairwise (fun a b => Iv.lt a b = true) := by rw [hP]; exact hsr.filter _
+          have hsm : m.ivs.Pairwise (fun a b => Iv.lt a b = true) := by
+            rcases minimize_eq g x m hxm with ⟨_, rfl⟩ | ⟨_, A, _, rfl⟩
+            · exact hsx
+            · exact hsx.filter _
+          have hivs : m.ivs = w'.ivs := sorted_ivs_ext _ _ hsm hsw (fun i => by
+            rw [hsame.2.2.2 i, ← hsame'.2.2.2 i])
+          have h1 : m.name = w'.name := by rw [hsame.1, hsame'.1]
+          have h2 : m.star = w'.star := by rw [hsame.2.1, hsame'.2.1]
+          have h3 : m.isIv = w'.isIv := by rw [hsame.2.2.1, hsame'.2.2.1]
+          cases m; cases w'
+          simp only at h1 h2 h3 hivs
+          subst h1; subst h2; subst h3; subst hivs
+          rfl
+        rw [hmw]; exact hw'
+
+/-- **Def. 4.2, all of `get_ancestral_components`.**  The ancestral sets are, root by root, `An(W_t)` of Def. 2.1 in the
+graph without the edges out of `X_*(W_t)` (sound, and complete up to `==`), where `X_*(W_t)` is characterised by
+`cond_in_ancestral_set_spec`; and the result is the finest partition of their union closed under overlap and bidirected
+adjacency within the sets (the three clauses of `ancestral_components_spec`). -/
+theorem ancestral_components_full (g : MG Name) (hg : g.WF) (cond roots : List Var) (out : List (List Var))
+    (h : ancestralComponents g cond roots = .ok out) :
+    ∃ sets : List (List Var),
+      List.Forall₂ (fun root A => ∃ c, condInAncestralSet g cond root = .ok c ∧
+          (∀ n ∈ c, CondVertex g cond root n) ∧
+          (∀ w ∈ A, IsCtfAncestor (g.removeOutEdges c) root w) ∧
+          (∀ w, IsCtfAncestor (g.removeOutEdges c) root w → ∃ w' ∈ A, SameVar w' w)) roots sets ∧
+      (∀ C ∈ out, ∃ s ∈ sets, s ≠ [] ∧ ∀ x, x ∈ C ↔ ∃ t ∈ sets, SameComponent g sets s t ∧ x ∈ t) ∧
+      (∀ s ∈ sets, ∀ x ∈ s, ∃ C ∈ out, x ∈ C) ∧
+      out.Pairwise (fun C D => ∀ a ∈ C, ∀ b ∈ D, a.name ≠ b.name) := by
+  obtain ⟨sets, hsets, rfl⟩ := ancestral_components_eq g cond roots out h
+  obtain ⟨h1, h2, h3⟩ := ancestral_components_spec g sets
+  refine ⟨sets, ?_, h1, h2, h3⟩
+  -- root by root
+  clear h h1 h2 h3
+  induction roots generalizing sets with
+  | nil =>
+    simp only [List.mapM_nil, pure, Except.pure, Except.ok.injEq] at hsets
+    subst hsets
+    exact List.Forall₂.nil
+  | cons root roots ih =>
+    simp only [List.mapM_cons, bind, Except.bind] at hsets
+    cases hA : ancestralSetAfter g cond root with
+    | error e => rw [hA] at hsets; cases hsets
+    | ok A =>
+      rw [hA] at hsets
+      cases hrest : roots.mapM (ancestralSetAfter g cond) with
+      | error e => rw [hrest] at hsets; cases hsets
+      | ok rest =>
+        rw [hrest] at hsets
+        simp only [pure, Except.pure, Except.ok.injEq] at hsets
+        subst hsets
+        refine List.Forall₂.cons ?_ (ih rest hrest)
+        unfold ancestralSetAfter at hA
+        simp only [bind, Except.bind] at hA
+        cases hc : condInAncestralSet g cond root with
+        | error e => rw [hc] at hA; cases hA
+        | ok c =>
+          rw [hc] at hA
+          obtain ⟨hs, hcpl⟩ := ctfAncestors_all (g.removeOutEdges c) (wf_fromEdges _ _ _) root A hA
+          exact ⟨c, rfl, (cond_in_ancestral_set_spec g hg cond root c hc).1, fun w hw => (hs w hw).1, hcpl⟩
 
 /-! ## 5. SIMPLIFY (Algorithm 1): probability preserved, `None` only for probability 0
 
@@ -833,6 +917,368 @@ theorem simplify_prob_partial (g : MG Name) (e e' : Event) (h : simplify g e = .
     probEventOpt M ν e = probEventOpt M ν e' :=
   probEventOpt_congr M ν e e' ((simplify_pointwise g e hrefl hval M hM ν hν).2 e' h)
 
+/-- **SIMPLIFY, then factorise** (lines 1-2 of Algorithm 2, ctfTRu): for an event without a self-intervened variable,
+if SIMPLIFY returns an event outside the three classes, the factorised sum-product of the SIMPLIFIED event is the
+probability of the ORIGINAL event. -/
+theorem simplify_factorize_den_partial (g : MG Name) (hg : g.WF) (e e' : Event) (expr : Expr) (ev : Event)
+    (hs : simplify g e = .ok (some e')) (hf : factorize g e' = .ok (expr, ev))
+    (hrefl : ∀ p ∈ e, selfIntervened p.1 = false)
+    (hval : ∀ p ∈ e, ∀ i, p.2 = some i → i.name = p.1.name)
+    (hread : readableQuery e' = true) (hclass : factorizeClasses g e' = .ok (false, false, false))
+    (M : Fscm.Model) (hM : Fscm.Compatible M g) (hnorm : ∀ pmf ∈ M.noise, pmf.sum = 1)
+    (card : Name → Nat) (hcard : ∀ v pa lat, M.f v pa lat < card v) (ν : Fscm.BaseValues) (hν : ν.Distinct) :
+    factorisedValue M ν card expr ev = probEventOpt M ν e := by
+  rw [factorisation_den_partial g hg e' expr ev hf hread hclass M hM hnorm card hcard ν]
+  exact (simplify_prob_partial g e e' hs hrefl hval M hM ν hν).symm
+
+/-! ### SIMPLIFY on ALL events, under y0's reading of self-intervened variables
+
+The two findings `simplify-reflexive:*` are not two bugs but one READING: y0 (source comment "Y_y and Y are the same",
+pinned by `test_simplify_y`) takes `Y_{..y..} = y` to be the event `Y = y`, where Algorithm 1 of the paper (and y0's own
+ID*) remove it as a tautology.  `y0Read` (Y0/Spec/CtfSem.lean) rewrites an event that way.  The next theorems are the
+FULL statement of the SIMPLIFY clause relative to that reading: for EVERY event (self-intervened variables included)
+SIMPLIFY preserves the probability of the event as y0 reads it, and answers `None` only when the event so read is
+impossible.  So the whole deviation from the property is the reading of `Y_y`. -/
+
+/-- minimisation keeps a variable self-intervened or not -/
+theorem minimize_self (g : MG Name) (v w : Var) (h : minimize g v = .ok w) :
+    selfIntervened w = selfIntervened v := by
+  rcases minimize_eq g v w h with ⟨_, rfl⟩ | ⟨hcf, A, hA, hw⟩
+  · rfl
+  · have hmin := minimize_spec g v w hcf h
+    rw [Bool.eq_iff_iff, selfIntervened_iff, selfIntervened_iff, hmin.1]
+    simp only [subNames, List.mem_map]
+    constructor
+    · rintro ⟨i, hi, hin⟩; exact ⟨i, ((hmin.2.2 i).1 hi).1, hin⟩
+    · rintro ⟨i, hi, hin⟩
+      exact ⟨i, (hmin.2.2 i).2 ⟨hi, by rw [hin]; exact ReflTransGen.refl⟩, hin⟩
+
+/-- `‖Y_{..y..}‖ = Y_y`: a self-intervened variable minimises to its self-intervention alone -/
+theorem minimize_self_ivs (g : MG Name) (v w : Var) (h : minimize g v = .ok w) (hs : selfIntervened v = true)
+    (hnd : (subNames v).Nodup) : ∃ j, w.ivs = [j] ∧ j ∈ v.ivs ∧ j.name = v.name := by
+  have hcf : v.isCf = true := selfIntervened_isCf v hs
+  have hmin := minimize_spec g v w hcf h
+  obtain ⟨j, hj, hjn⟩ := List.mem_map.1 ((selfIntervened_iff v).1 hs)
+  have hjw : j ∈ w.ivs := (hmin.2.2 j).2 ⟨hj, by rw [hjn]; exact ReflTransGen.refl⟩
+  -- every surviving subscript is on the variable itself
+  have hall : ∀ i ∈ w.ivs, i.name = v.name := by
+    intro i hi
+    obtain ⟨_, hanc⟩ := (hmin.2.2 i).1 hi
+    unfold AncBar at hanc
+    rcases ReflTransGen.cases_tail hanc with heq | ⟨b, _, hbv⟩
+    · exact heq.symm
+    · exact absurd ((selfIntervened_iff v).1 hs) hbv.2
+  -- and the subscript names are distinct
+  have hsub : w.ivs.Sublist v.ivs := by
+    rcases minimize_eq g v w h with ⟨hc, _⟩ | ⟨_, A, _, hw⟩
+    · rw [hcf] at hc; cases hc
+    · rw [hw]; exact List.filter_sublist
+  have hnw : (w.ivs.map (·.name)).Nodup := hnd.sublist (hsub.map _)
+  refine ⟨j, ?_, hj, hjn⟩
+  match hw : w.ivs, hjw, hall, hnw with
+  | [a], hjw, _, _ => simp only [List.mem_singleton] at hjw; rw [hjw]
+  | a :: b :: rest, _, hall, hnw =>
+    exfalso
+    have ha := hall a (by simp)
+    have hb := hall b (by simp)
+    simp only [List.map_cons, List.nodup_cons, List.mem_cons, not_or] at hnw
+    exact hnw.1.1 (by rw [ha, hb])
+
+/-- pointwise content of the two theorems below -/
+theorem simplify_pointwise_y0 (g : MG Name) (e : Event)
+    (hnd : ∀ p ∈ e, (subNames p.1).Nodup)
+    (hval : ∀ p ∈ e, ∀ i, p.2 = some i → i.name = p.1.name)
+    (M : Fscm.Model) (hM : Fscm.Compatible M g) (ν : Fscm.BaseValues) (hν : ν.Distinct) :
+    (simplify g e = .ok none → y0Read e = none ∨ ∃ e₀, y0Read e = some e₀ ∧ ∀ u, ¬ EventHolds M ν u e₀) ∧
+    (∀ e', simplify g e = .ok (some e') →
+      ∃ e₀, y0Read e = some e₀ ∧ ∀ u, EventHolds M ν u e₀ ↔ EventHolds M ν u e') := by
+  -- what the event means once it is read
+  have hread : ∀ e₀, y0Read e = some e₀ → (∀ q, q ∈ e₀ ↔ ∃ p ∈ e, y0ReadItem p = some q) := by
+    intro e₀ he₀
+    have hall : ∀ p ∈ e, ∃ q, y0ReadItem p = some q := by
+      intro p hp
+      cases hq : y0ReadItem p with
+      | some q => exact ⟨q, rfl⟩
+      | none =>
+        have := optMapM_none y0ReadItem e ⟨p, hp, hq⟩
+        unfold y0Read at he₀
+        rw [this] at he₀; cases he₀
+    obtain ⟨r, hr, hmem⟩ := optMapM_total y0ReadItem e hall
+    unfold y0Read at he₀
+    rw [hr] at he₀
+    cases he₀
+    exact hmem
+  have hholds₀ : ∀ e₀, y0Read e = some e₀ → ∀ u, EventHolds M ν u e₀ ↔
+      ∀ p ∈ e, ∀ i, p.2 = some i →
+        Fscm.solve M u (if selfIntervened p.1 then [] else Fscm.worldOf ν p.1.ivs) p.1.name = Fscm.ivValue ν i := by
+    intro e₀ he₀ u
+    have hmem := hread e₀ he₀
+    constructor
+    · intro h p hp i hi
+      have hq : ∃ q, y0ReadItem p = some q := by
+        cases hq : y0ReadItem p with
+        | some q => exact ⟨q, rfl⟩
+        | none =>
+          have := optMapM_none y0ReadItem e ⟨p, hp, hq⟩
+          unfold y0Read at he₀
+          rw [this] at he₀; cases he₀
+      obtain ⟨q, hq⟩ := hq
+      have hqe := (hmem q).2 ⟨p, hp, hq⟩
+      unfold y0ReadItem at hq
+      by_cases hs : selfIntervened p.1 = true
+      · have hs' : (p.1.ivs.any fun i => i.name == p.1.name) = true := hs
+        simp only [hs', ↓reduceIte, hi] at hq
+        split at hq
+        · simp only [Option.some.injEq] at hq
+          subst hq
+          have := h _ hqe i rfl
+          simpa [hs, Fscm.worldOf] using this
+        · cases hq
+      · have hs' : (p.1.ivs.any fun i => i.name == p.1.name) = false := by simpa [selfIntervened] using hs
+        simp only [hs', Bool.false_eq_true, ↓reduceIte, Option.some.injEq] at hq
+        subst hq
+        have := h _ hqe i hi
+        simpa [hs] using this
+    · intro h q hq i hi
+      obtain ⟨p, hp, hpq⟩ := (hmem q).1 hq
+      unfold y0ReadItem at hpq
+      by_cases hs : selfIntervened p.1 = true
+      · have hs' : (p.1.ivs.any fun i => i.name == p.1.name) = true := hs
+        simp only [hs', ↓reduceIte] at hpq
+        cases hx : p.2 with
+        | none =>
+          rw [hx] at hpq
+          simp only [Option.some.injEq] at hpq
+          subst hpq
+          cases hi
+        | some i' =>
+          rw [hx] at hpq
+          simp only at hpq
+          split at hpq
+          · simp only [Option.some.injEq] at hpq
+            subst hpq
+            simp only [Option.some.injEq] at hi
+            subst hi
+            have := h p hp i' hx
+            simpa [hs, Fscm.worldOf] using this
+          · cases hpq
+      · have hs' : (p.1.ivs.any fun i => i.name == p.1.name) = false := by simpa [selfIntervened] using hs
+        simp only [hs', Bool.false_eq_true, ↓reduceIte, Option.some.injEq] at hpq
+        subst hpq
+        have := h p hp i hi
+        simpa [hs] using this
+  unfold simplify
+  split
+  · simp [bind, Except.bind, throw, throwThe, MonadExceptOf.throw]
+  · simp only [bind, Except.bind]
+    cases hme : minimizeEvent g e with
+    | error err => simp
+    | ok me =>
+      simp only
+      have hmem := minimizeEvent_mem g e me hme
+      have hmin_ok : ∀ p ∈ e, ∃ k, minimize g p.1 = .ok k ∧ (k, p.2) ∈ me := by
+        rintro ⟨v, x⟩ hp
+        cases hm : minimize g v with
+        | ok k => exact ⟨k, rfl, (hmem k x).2 ⟨v, hp, hm⟩⟩
+        | error err =>
+          exfalso
+          have : ∀ (l : Event) (r : Event), (v, x) ∈ l →
+              l.mapM (fun p => do pure (← minimize g p.1, p.2)) ≠ .ok r := by
+            intro l
+            induction l with
+            | nil => intro r hin; cases hin
+            | cons q l ih =>
+              intro r hin hok
+              simp only [List.mapM_cons, bind, Except.bind] at hok
+              rcases List.mem_cons.1 hin with rfl | hin'
+              · simp only [hm] at hok; cases hok
+              · cases hq : minimize g q.1 with
+                | error e2 => rw [hq] at hok; cases hok
+                | ok k2 =>
+                  rw [hq] at hok
+                  simp only [pure, Except.pure] at hok
+                  cases hl : l.mapM (fun p => do pure (← minimize g p.1, p.2)) with
+                  | error e3 =>
+                    simp only [bind, Except.bind, pure, Except.pure] at hl
+                    rw [hl] at hok; cases hok
+                  | ok r' => exact ih r' hin' hl
+          exact this e me hp hme
+      -- the hypothesis of the combinatorial core
+      have hone : ∀ p ∈ me, selfIntervened p.1 = true → ∃ j, p.1.ivs = [j] := by
+        rintro ⟨k, x⟩ hp hs
+        obtain ⟨v, hv, hm⟩ := (hmem k x).1 hp
+        have hsv : selfIntervened v = true := by rw [← minimize_self g v k hm]; exact hs
+        obtain ⟨j, hj, _⟩ := minimize_self_ivs g v k hm hsv (hnd (v, x) hv)
+        exact ⟨j, hj⟩
+      obtain ⟨hnone, hsome⟩ := simplifyCore_spec_gen me hone
+      -- the value of an item of the event as SIMPLIFY reads it
+      have hrdval : ∀ k i u, (k, some i) ∈ rd me → (∀ p ∈ e, ∀ i, p.2 = some i →
+          Fscm.solve M u (if selfIntervened p.1 then [] else Fscm.worldOf ν p.1.ivs) p.1.name = Fscm.ivValue ν i) →
+          Fscm.solve M u (Fscm.worldOf ν k.ivs) k.name = Fscm.ivValue ν i := by
+        intro k i u hk hall
+        obtain ⟨⟨w, x⟩, hp, hkw, hx⟩ := (mem_rd me k (some i)).1 hk
+        simp only at hkw hx
+        subst hx
+        obtain ⟨v, hv, hm⟩ := (hmem w (some i)).1 hp
+        have hself := minimize_self g v w hm
+        have := hall (v, some i) hv i rfl
+        simp only at this
+        by_cases hs : selfIntervened v = true
+        · rw [← hkw]
+          simp only [rkey, hself, hs, ↓reduceIte, Var.base]
+          simp only [hs, ↓reduceIte] at this
+          rw [(minimize_wf g v w hm).1]
+          simpa [Fscm.worldOf] using this
+        · have hs' : selfIntervened v = false := by simpa using hs
+          rw [← hkw]
+          simp only [rkey, hself, hs', Bool.false_eq_true, ↓reduceIte]
+          simp only [hs', Bool.false_eq_true, ↓reduceIte] at this
+          rw [← minimize_same_rv g v w hm M hM ν u]
+          exact this
+      constructor
+      · intro hc
+        rcases hnone hc with ⟨⟨w, x⟩, hp, hs, i, j, hx, hj, hij⟩ | ⟨k, i, j, hij, hi, hj⟩
+        · -- a self-intervened variable with a value that is not its subscript: impossible already for y0Read
+          left
+          simp only at hs hx hj
+          subst hx
+          obtain ⟨v, hv, hm⟩ := (hmem w (some i)).1 hp
+          have hsv : selfIntervened v = true := by rw [← minimize_self g v w hm]; exact hs
+          obtain ⟨j', hj', hjv, hjn⟩ := minimize_self_ivs g v w hm hsv (hnd (v, some i) hv)
+          rw [hj] at hj'
+          simp only [List.cons.injEq, and_true] at hj'
+          subst hj'
+          apply optMapM_none
+          refine ⟨(v, some i), hv, ?_⟩
+          unfold y0ReadItem
+          have hs' : (v.ivs.any fun i => i.name == v.name) = true := hsv
+          simp only [hs', ↓reduceIte]
+          split
+          · rename_i hin
+            exfalso
+            simp only [List.any_eq_true, decide_eq_true_eq] at hin
+            obtain ⟨i', hi', rfl⟩ := hin
+            -- `i'` and `j` are both subscripts of `v` on `v` itself
+            have hname : i'.name = j.name := by
+              rw [hval (v, some i') hv i' rfl, hjn]
+            have hidx : ∀ (l : List Iv), (l.map (·.name)).Nodup → ∀ a ∈ l, ∀ b ∈ l, a.name = b.name → a = b := by
+              intro l
+              induction l with
+              | nil => intro _ a ha; cases ha
+              | cons c l ih =>
+                intro hn a ha b hb hab
+                simp only [List.map_cons, List.nodup_cons] at hn
+                rcases List.mem_cons.1 ha with rfl | ha'
+                · rcases List.mem_cons.1 hb with rfl | hb'
+                  · rfl
+                  · exact absurd (List.mem_map.2 ⟨b, hb', hab.symm⟩) hn.1
+                · rcases List.mem_cons.1 hb with rfl | hb'
+                  · exact absurd (List.mem_map.2 ⟨a, ha', hab⟩) hn.1
+                  · exact ih hn.2 a ha' b hb' hab
+            exact hij (hidx v.ivs (hnd (v, some i') hv) i' hi' j hjv hname)
+          · rfl
+        · -- two different values for one variable of the event as read
+          cases he₀ : y0Read e with
+          | none => exact Or.inl rfl
+          | some e₀ =>
+            right
+            refine ⟨e₀, rfl, fun u hu => ?_⟩
+            have hall := (hholds₀ e₀ he₀ u).1 hu
+            have e1 := hrdval k i u hi hall
+            have e2 := hrdval k j u hj hall
+            -- both values are values of the vertex of `k`
+            have hname : ∀ i', (k, some i') ∈ rd me → i'.name = k.name := by
+              intro i' hk'
+              obtain ⟨⟨w, x⟩, hp, hkw, hx⟩ := (mem_rd me k (some i')).1 hk'
+              simp only at hkw hx
+              subst hx
+              obtain ⟨v, hv, hm⟩ := (hmem w (some i')).1 hp
+              rw [hval (v, some i') hv i' rfl, ← (minimize_wf g v w hm).1, ← hkw]
+              unfold rkey
+              split <;> rfl
+            have hn₁ := hname i hi
+            have hn₂ := hname j hj
+            have heq : Fscm.ivValue ν i = Fscm.ivValue ν j := by rw [← e1, ← e2]
+            unfold Fscm.ivValue at heq
+            rw [hn₁, hn₂] at heq
+            have hstar : i.star ≠ j.star := by
+              intro hs
+              apply hij
+              cases i; cases j
+              simp only at hn₁ hn₂ hs
+              subst hs; rw [hn₁, hn₂]
+            cases hi' : i.star <;> cases hj' : j.star <;> simp only [hi', hj'] at heq hstar
+            · exact hstar rfl
+            · exact hν k.name heq
+            · exact hν k.name heq.symm
+            · exact hstar rfl
+      · intro e' hc
+        obtain ⟨hown, hiff⟩ := hsome e' hc
+        -- no item is impossible, so the event has a reading
+        have hall : ∀ p ∈ e, ∃ q, y0ReadItem p = some q := by
+          rintro ⟨v, x⟩ hp
+          unfold y0ReadItem
+          by_cases hs : selfIntervened v = true
+          · have hs' : (v.ivs.any fun i => i.name == v.name) = true := hs
+            simp only [hs', ↓reduceIte]
+            cases x with
+            | none => exact ⟨_, rfl⟩
+            | some i =>
+              obtain ⟨w, hm, hw⟩ := hmin_ok (v, some i) hp
+              have hsw : selfIntervened w = true := by rw [minimize_self g v w hm]; exact hs
+              have hwi := hown (w, some i) hw hsw i rfl
+              have hiv : i ∈ v.ivs := (minimize_wf g v w hm).2.2.1 i (by simp only at hwi; rw [hwi]; simp)
+              have : (v.ivs.any fun j => decide (j = i)) = true := by
+                simp only [List.any_eq_true, decide_eq_true_eq]; exact ⟨i, hiv, rfl⟩
+              simp only [this, ↓reduceIte]
+              exact ⟨_, rfl⟩
+          · have hs' : (v.ivs.any fun i => i.name == v.name) = false := by simpa [selfIntervened] using hs
+            simp only [hs', Bool.false_eq_true, ↓reduceIte]
+            exact ⟨_, rfl⟩
+        obtain ⟨e₀, he₀, _⟩ := optMapM_total y0ReadItem e hall
+        refine ⟨e₀, he₀, fun u => ?_⟩
+        rw [hholds₀ e₀ he₀ u]
+        constructor
+        · rintro h ⟨k, x⟩ hp i hi
+          simp only at hi; subst hi
+          exact hrdval k i u ((hiff k i).1 hp) h
+        · intro h p hp i hi
+          obtain ⟨w, hm, hw⟩ := hmin_ok p hp
+          have hself := minimize_self g p.1 w hm
+          rw [hi] at hw
+          have hrd : (rkey w, some i) ∈ rd me := (mem_rd me _ _).2 ⟨(w, some i), hw, rfl, rfl⟩
+          have := h (rkey w, some i) ((hiff _ i).2 hrd) i rfl
+          simp only at this
+          by_cases hs : selfIntervened p.1 = true
+          · simp only [hs, ↓reduceIte]
+            simp only [rkey, hself, hs, ↓reduceIte, Var.base] at this
+            rw [(minimize_wf g p.1 w hm).1] at this
+            simpa [Fscm.worldOf] using this
+          · have hs' : selfIntervened p.1 = false := by simpa using hs
+            simp only [hs', Bool.false_eq_true, ↓reduceIte]
+            simp only [rkey, hself, hs', Bool.false_eq_true, ↓reduceIte] at this
+            rw [minimize_same_rv g p.1 w hm M hM ν u]
+            exact this
+
+/-- **SIMPLIFY answers 'impossible' only for probability zero — all events, y0's reading of `Y_y`.** -/
+theorem simplify_none_zero_y0reading (g : MG Name) (e : Event) (h : simplify g e = .ok none)
+    (hnd : ∀ p ∈ e, (subNames p.1).Nodup)
+    (hval : ∀ p ∈ e, ∀ i, p.2 = some i → i.name = p.1.name)
+    (M : Fscm.Model) (hM : Fscm.Compatible M g) (ν : Fscm.BaseValues) (hν : ν.Distinct) :
+    y0Read e = none ∨ ∃ e₀, y0Read e = some e₀ ∧ probEventOpt M ν e₀ = 0 := by
+  rcases (simplify_pointwise_y0 g e hnd hval M hM ν hν).1 h with h0 | ⟨e₀, he₀, hnever⟩
+  · exact Or.inl h0
+  · exact Or.inr ⟨e₀, he₀, probEventOpt_zero M ν e₀ hnever⟩
+
+/-- **SIMPLIFY preserves the probability of the event — all events, y0's reading of `Y_y`.** -/
+theorem simplify_prob_y0reading (g : MG Name) (e e' : Event) (h : simplify g e = .ok (some e'))
+    (hnd : ∀ p ∈ e, (subNames p.1).Nodup)
+    (hval : ∀ p ∈ e, ∀ i, p.2 = some i → i.name = p.1.name)
+    (M : Fscm.Model) (hM : Fscm.Compatible M g) (ν : Fscm.BaseValues) (hν : ν.Distinct) :
+    ∃ e₀, y0Read e = some e₀ ∧ probEventOpt M ν e₀ = probEventOpt M ν e' := by
+  obtain ⟨e₀, he₀, hiff⟩ := (simplify_pointwise_y0 g e hnd hval M hM ν hν).2 e' h
+  exact ⟨e₀, he₀, probEventOpt_congr M ν e₀ e' hiff⟩
+
 /-- the two defects that keep the full statement open, as facts about the model: the tautology `Y_y = y` is rewritten to
 `Y = y`, and `Y_y = y ∧ Y = y'` is declared impossible -/
 theorem simplify_reflexive_witness :
@@ -841,6 +1287,13 @@ theorem simplify_reflexive_witness :
     simplify (MG.fromEdges [1] [] []) [({ name := 1, ivs := [⟨1, false⟩] }, some ⟨1, false⟩),
         ({ name := 1 }, some ⟨1, true⟩)] = .ok none := by
   constructor <;> decide
+
+-- y0's reading of the self-intervened items of `test_simplify_y`: event_1 becomes `Y = y`, event_2 is impossible,
+-- event_6 becomes `Y = y ∧ Y = y'`
+example : y0Read [({ name := 1, ivs := [⟨1, false⟩] }, some ⟨1, false⟩)] = some [({ name := 1 }, some ⟨1, false⟩)] := by decide
+example : y0Read [({ name := 1, ivs := [⟨1, false⟩] }, some ⟨1, true⟩)] = none := by decide
+example : y0Read [({ name := 1, ivs := [⟨1, false⟩] }, some ⟨1, false⟩), ({ name := 1 }, some ⟨1, true⟩)] =
+    some [({ name := 1 }, some ⟨1, false⟩), ({ name := 1 }, some ⟨1, true⟩)] := by decide
 
 /-! ## non-vacuity: Figure 2a of Correa, Lee, Bareinboim 2022 (X=0, Y=1, W=2, Z=3) and the F8 witnesses -/
 
@@ -872,6 +1325,17 @@ example : componentsFromSets (MG.fromEdges [] [] [(0, 2), (1, 2)]) [[{ name := 0
 -- and a bidirected edge between members does merge
 example : componentsFromSets (MG.fromEdges [] [] [(0, 1)]) [[{ name := 0 }], [{ name := 1 }]] =
     [[{ name := 0 }, { name := 1 }]] := by decide
+
+-- conditioned variables (Def. 4.2): X is a member of An(Y) but not of An(Y_x); conditioning on X cuts the edges out of X;
+-- a conditioned X_w (W is not an ancestor of X) only matches the member X after minimisation
+example : condInAncestralSet fig2a [{ name := 0 }] { name := 1 } = .ok [0] := by decide
+example : condInAncestralSet fig2a [{ name := 0 }] { name := 1, ivs := [iv 0] } = .ok [] := by decide
+example : condInAncestralSet fig2a [{ name := 0, ivs := [iv 2] }] { name := 1 } = .ok [0] := by decide
+example : ancestralSetAfter fig2a [{ name := 0 }] { name := 1 } = .ok [{ name := 1 }, { name := 3 }, { name := 2 }] := by decide
+example : ancestralComponents fig2a [{ name := 0 }] [{ name := 1 }, { name := 0 }] =
+    .ok [[{ name := 1 }, { name := 3 }, { name := 2 }, { name := 0 }]] := by decide
+example : mergeCommon [[{ name := 0 }], [{ name := 0, ivs := [iv 1] }], [{ name := 2 }]] =
+    [[{ name := 0 }, { name := 0, ivs := [iv 1] }], [{ name := 2 }]] := by decide
 
 /-! ### the hypotheses of the semantic theorems are satisfiable: a concrete compatible functional SCM on X -> Y -/
 
@@ -932,5 +1396,45 @@ example (ν : Fscm.BaseValues) (hν : ν.Distinct) :
   intro p hp i hi
   simp only [List.mem_cons, List.not_mem_nil, or_false] at hp
   rcases hp with rfl | rfl <;> simp only [Option.some.injEq] at hi <;> subst hi <;> rfl
+
+/-! ### the value theorem is not vacuous -/
+
+theorem chainModel_normalised : ∀ pmf ∈ chainModel.noise, pmf.sum = 1 := by
+  intro pmf hp
+  simp only [chainModel, List.mem_cons, List.not_mem_nil, or_false, or_self] at hp
+  subst hp
+  norm_num
+
+theorem chainModel_card : ∀ v pa lat, chainModel.f v pa lat < (fun _ => 2) v := by
+  intro v pa lat
+  exact Nat.mod_lt _ (by decide)
+
+/-- `P(Y_x = y) = P(Y @ -X = y)`  (no summation: `X` is not an ancestor of `Y_x`) and
+`P(Y = y) = Σ_X P(Y @ -X) P(X)` in the chain model, by the theorem -/
+example (ν : Fscm.BaseValues) :
+    factorisedValue chainModel ν (fun _ => 2) (.prob none [{ name := 1, ivs := [⟨0, false⟩] }] [])
+        [({ name := 1, ivs := [⟨0, false⟩] }, some ⟨1, false⟩)] =
+      probEventOpt chainModel ν [({ name := 1, ivs := [⟨0, false⟩] }, some ⟨1, false⟩)] :=
+  factorisation_den_partial chain (wf_fromEdges _ _ _) _ _ _ rfl (by decide) (by decide) chainModel
+    chainModel_compatible chainModel_normalised _ chainModel_card ν
+
+example (ν : Fscm.BaseValues) :
+    factorisedValue chainModel ν (fun _ => 2)
+        (.sum (.prod [.prob none [{ name := 1, ivs := [⟨0, false⟩] }] [], .prob none [{ name := 0 }] []]) [{ name := 0 }])
+        [({ name := 1, ivs := [⟨0, false⟩] }, some ⟨1, true⟩)] =
+      probEventOpt chainModel ν [({ name := 1 }, some ⟨1, true⟩)] :=
+  factorisation_den_partial chain (wf_fromEdges _ _ _) _ _ _ rfl (by decide) (by decide) chainModel
+    chainModel_compatible chainModel_normalised _ chainModel_card ν
+
+-- Example 4.2 / Eq. 16 of the paper, `P(y_x, x')` on Figure 2a, is outside the three classes …
+example : factorizeClasses fig2a [({ name := 1, ivs := [iv 0] }, some ⟨1, false⟩), ({ name := 0 }, some ⟨0, true⟩)] =
+    .ok (false, false, false) := by decide
+-- … and the minimal inputs of the three open findings are inside
+example : factorizeClasses chain [({ name := 1 }, some ⟨1, false⟩), ({ name := 1, ivs := [iv 0] }, some ⟨1, true⟩)] =
+    .ok (true, true, false) := by decide
+example : factorizeClasses (MG.fromEdges [] [(0, 1), (0, 2)] [])
+    [({ name := 1, ivs := [iv 0] }, some ⟨1, false⟩), ({ name := 2 }, some ⟨2, false⟩)] = .ok (false, true, false) := by decide
+example : factorizeClasses chain [({ name := 1 }, some ⟨1, false⟩), ({ name := 0 }, some ⟨0, true⟩)] =
+    .ok (false, false, true) := by decide
 
 end Y0.Ctf
